@@ -196,6 +196,29 @@ Theorem c02_unary_client_error_merge :
                 if hm_contains headers k then hm_get_all headers k else hm_get_all (st_md st) k.
 Proof. exact unary_error_merge. Qed.
 
+(* which side wins when a name occurs on both sides (C08: c08_merge_pointwise, c08_error_fold):
+   - successful unary response, parts.merge(trailers): per name the TRAILERS' values replace the
+     response headers' ([c02_unary_ok_merge], any head without grpc-status / grpc-encoding, any
+     non-error trailers, any transport of the one message);
+   - unary error at the first message, status.metadata.merge(parts): per name the HEADERS'
+     values replace the status' ([c02_unary_client_error_merge] above);
+   - streaming shapes: no merge at all - the response metadata is the head, the error metadata
+     the trailers ([c02_response_stream]).
+   Tied by kind merge.shared_names (hand-built responses with names on both sides). *)
+Theorem c02_unary_ok_merge :
+  forall (msg : Type) (deser : list N -> option msg) (decompress : encoding -> list N -> option (list N))
+         (cl : side) (sh : shape) (http : N) (h t : hm) (m : msg) (p : list N) (evs : list bev) (fuel : nat),
+    resp_streaming sh = false ->
+    hm_get_all h hdr_grpc_encoding = [] -> from_header_map h = None ->
+    delivers msg deser decompress (dec_limit (max_dec cl)) [p] [m] ->
+    only_dp evs -> data_of evs = frame 0 p ->
+    resp_ok (Response http) (Some t) ->
+    (length evs + 4 <= fuel)%nat ->
+    client_call msg deser decompress cl sh http h (evs ++ [BTrailers t]) fuel = CRUnary (Metadata.merge h t) m /\
+    forall k, hm_get_all (Metadata.merge h t) k =
+              match hm_get_all t k with [] => hm_get_all h k | l => l end.
+Proof. exact unary_ok_merge. Qed.
+
 (* ---- the transport ---------------------------------------------------------------------------- *)
 (* the re-cutting of the harness is a member of the transport contract *)
 Theorem c02_transport_in_contract :
@@ -238,6 +261,22 @@ Theorem c02_source_never_polled_after_end :
     Encoder.s_after_end (snd (Encoder.run_body_src msg enc ser compress c r src extra)) = 0.
 Proof. exact source_never_polled_after_end. Qed.
 
+(* not vacuous, and not about a sibling model: [run_body_src] is Model/Encoder.v's machine over the
+   explicit source (remaining events, "has answered None", the Fuse's "dropped" flag, the ghost);
+   the theorem says its poll results ARE those of [run_body] - the run every theorem above and
+   the harness's model expressions are about - and the ghost [s_after_end] is part of the
+   observable compared with the strict streams of the harness (obs_call, third component).
+   The ghost is not inert: the same loop WITHOUT the Fuse's flag polls the ended source, counts
+   it and takes the explicit panic outcome *)
+Example c02_unfused_poll_is_counted :
+  Encoder.enc_loop_s (list N) Encoder.cenc Encoder.ser_raw (Encoder.compress_tbl [])
+    (Encoder.mkCfg None false None 8192 32768) [] [] true 0 false =
+    (Encoder.PPanic, Encoder.mkEnc [] None false, Encoder.mkSource [] true 1 false) /\
+  Encoder.enc_loop_s (list N) Encoder.cenc Encoder.ser_raw (Encoder.compress_tbl [])
+    (Encoder.mkCfg None false None 8192 32768) [] [] true 0 true =
+    (Encoder.PNone, Encoder.mkEnc [] None false, Encoder.mkSource [] true 0 true).
+Proof. split; reflexivity. Qed.
+
 (* ---- non-vacuity ---------------------------------------------------------------------------- *)
 From Coq Require Import String.
 (* a bidirectional call: caller metadata with a repeated name, a binary name and a forged te;
@@ -273,7 +312,8 @@ Example c02_example_evaluates :
            (inl (ex_md, [inl (Some [9]); inl None; inr ex_st; inl (Some [7])])) [3] [0; 2] 40 =
   Nd [ result_obs (CRStream (response_headers ex_md) [[9]]
                      (EndErr (mkStatus 5 [110; 111; 32; 37; 195; 169] [0; 255; 7] [(bytes_of_string "x-e"%string, [119])])));
-       seen_obs (SeenStream (plain_request_headers ex_md) [[1]; []; [2; 3]] EndOk) ].
+       seen_obs (SeenStream (plain_request_headers ex_md) [[1]; []; [2; 3]] EndOk);
+       Nn 0 ].
 Proof. vm_compute. reflexivity. Qed.
 
 Print Assumptions c02_request_unary.
